@@ -31,7 +31,7 @@ EXPORT_SETS_THOROUGH = EXPORT_SETS_QUICK + [
 
 
 def design_check(ctx):
-    for i, (recs, vm) in enumerate(DESIGN_SETS if not ctx.quick else DESIGN_SETS[:3]):
+    for i, (recs, vm) in enumerate(DESIGN_SETS if not ctx.quick else DESIGN_SETS[:2]):
         ctx.tlc_check('MC_DlisPhys_%d' % i, 'DlisPhysMC', spec='MCSpec',
                       consts={'Recs': recs, 'Chunks': frozenset([1, 2, 11, 12, 13, 14, 26, 27, 40]),
                               'PadExtra': frozenset([2, 4])},
@@ -172,7 +172,8 @@ def run(ctx, which):
                         reads = f.stop()
                         data = bytes(fld.logical_data.bytes)
                         tr.append(dict(op='get', k=k, off=o, len=ln, ranges=G.project(k, data, recs[k - 1]['len'], hint=o),
-                                       reads=[list(x) for x in sorted(set(reads))],
+                                       rlo=min((x[0] for x in reads), default=-1), rhi=max((x[0] + x[1] for x in reads), default=-1),
+                                       nreads=len(reads),
                                        kind='E' if fld.lr_is_eflr else 'I', type=fld.lr_type))
                         if len(kept) < 4:
                             kept.append((k, o, ln, fld))
@@ -180,7 +181,7 @@ def run(ctx, which):
                     for (k, o, ln, fld) in kept:
                         data = bytes(fld.logical_data.bytes)
                         tr.append(dict(op='get', k=k, off=o, len=ln, ranges=G.project(k, data, recs[k - 1]['len'], hint=o),
-                                       reads=[], kind='E' if fld.lr_is_eflr else 'I', type=fld.lr_type, retained=True))
+                                       rlo=-1, rhi=-1, nreads=0, kind='E' if fld.lr_is_eflr else 'I', type=fld.lr_type, retained=True))
         except Exception as e:   # the reader raised on a conformant file
             tr.append(dict(op='exception', err='%s: %s' % (type(e).__name__, str(e)[:200])))
         traces.append(tr)
